@@ -1420,7 +1420,8 @@ cdef class NNPSBase:
                                 size_t d_idx, UIntArray nbrs):
         cdef int idx = dst_index*self.narrays + src_index
         if self.use_cache:
-            if self.src_index != src_index \
+            if self.current_cache is None \
+                or self.src_index != src_index \
                 or self.dst_index != dst_index:
                 self.set_context(src_index, dst_index)
             return self.cache[idx].get_neighbors(src_index, d_idx, nbrs)
